@@ -34,6 +34,8 @@ func checkC05(c *Check) {
 	ruleHeaderGate(c, p, "R05.1")
 	ruleBlockChecksumVerified(c, p, "R05.2")
 	ruleEveryBlockDecoded(c, p, "R05.20")
+	ruleZeroCountMeansBuffered(c, p, "R05.21")
+	c.RuleDoc["R05.21"] = "a zero count of Reader.read means the block is in r.data: an empty block decoded directly does not make Read deliver the old contents of the block buffer"
 	c.RuleDoc["R05.20"] = "every block the reading goroutine takes from the source reaches a decoder (where its checksum is compared) before the next block is read"
 	ruleContentChecksumVerified(c, p, "R05.3")
 	ruleEOSCallsCloseR(c, p, "R05.3")
